@@ -244,6 +244,41 @@ example : C06.IsTree (.node 0 [.node 1 [.node 2 [.node 3 [.node 4 []], .node 5 [
 
 end C16Tree2
 
+/-! ## the order of the branches does not matter -/
+namespace C16Tree2
+open Gen.Algo Py Resample RefineSmoothTree C08 Trav Branches
+
+/-- the fold over any reordering of the branches gives the same column -/
+theorem foldl_perm (k n : Nat) (brs brs' : List (List Int)) (col : List Rat) (hl : col.length = n) (hg : Good n brs)
+    (hp : brs.Pairwise (fun b b' => (∀ m ∈ mid b, m ∉ b') ∧ (∀ m ∈ mid b', m ∉ b))) (hperm : brs'.Perm brs) :
+    brs'.foldl (stepCol k) col = brs.foldl (stepCol k) col := by
+  have hg' : Good n brs' := fun b hb => hg b (hperm.mem_iff.1 hb)
+  have hp' : brs'.Pairwise (fun b b' => (∀ m ∈ mid b, m ∉ b') ∧ (∀ m ∈ mid b', m ∉ b)) :=
+    (hperm.pairwise_iff (fun h => ⟨h.2, h.1⟩)).2 hp
+  apply List.ext_getElem (by simp)
+  intro j h1 h2
+  have key : ∀ (l : List Rat) (hj : j < l.length), l[j] = l.getD j 0 := by
+    intro l hj; simp [List.getD_eq_getElem?_getD, hj]
+  rw [key, key]
+  by_cases hex : ∃ b ∈ brs, ∃ m ∈ mid b, m.toNat = j
+  · obtain ⟨b, hb, m, hm, rfl⟩ := hex
+    obtain ⟨p, hp_, rfl⟩ := List.mem_iff_getElem.1 (mid_sub b m hm)
+    have e1 := gather_getElem (brs'.foldl (stepCol k) col) b p hp_
+    have e2 := gather_getElem (brs.foldl (stepCol k) col) b p hp_
+    rw [← e1, ← e2]
+    simp only [foldl_gather k n brs' col hl hg' hp' b (hperm.mem_iff.2 hb), foldl_gather k n brs col hl hg hp b hb]
+  · have hex' : ∀ b ∈ brs, ∀ m ∈ mid b, m.toNat ≠ j := fun b hb m hm he => hex ⟨b, hb, m, hm, he⟩
+    rw [foldl_frame k n brs' col hl hg' j (fun b hb => hex' b (hperm.mem_iff.1 hb)), foldl_frame k n brs col hl hg j hex']
+
+/-- **on a well-formed tree the smoother's result does not depend on the order in which the branches are visited**: the fold over any permutation
+of `branchesOf r` is the column the generated `TreeSmoother.__call__` returns (`generated_smooth_tree`) -/
+theorem generated_smooth_tree_order (r : Rose) (pids : List Int) (h : C06.IsTree r pids) (col : List Rat) (k : Nat)
+    (hl : col.length = pids.length) (brs' : List (List Int)) (hperm : brs'.Perm (branchesOf r)) :
+    brs'.foldl (stepCol k) col = (branchesOf r).foldl (stepCol k) col :=
+  foldl_perm k _ _ _ col hl (good_tree r pids h) (pairwise_tree r pids h) hperm
+
+end C16Tree2
+
 /-! ## parents come before children in the preorder listing: a rank for the branch tree -/
 namespace C16Tree2
 open C08 Trav Branches
